@@ -1,8 +1,13 @@
-(* C07 - Payloads travel intact with the transition they were attached to. Theorems only. The payload type P is arbitrary (every theorem is parametric in it) and transitions are moved as whole records (origin, destination, optional payload). The plan's structural invariant is a parameter PI with plan_inv_ok P cfg PI in the statements taken from Proofs/CycleProofs.v / Proofs/PlanStep.v; the last theorem of this file shows the concrete invariant PIc (the plan refines a bounded task list whose tasks name states, Proofs/PlanProofs.v, Proofs/MachinePlan.v) satisfies it. *)
+(* C07 - Payloads travel intact with the transition they were attached to. Theorems only. The payload type P is
+   arbitrary (every theorem is parametric in it) and transitions are moved as whole records (origin, destination,
+   optional payload). The plan's structural invariant is a parameter PI with plan_inv_ok P cfg PI in the statements
+   taken from Proofs/CycleProofs.v / Proofs/PlanStep.v; the last theorem of this file shows the concrete invariant PIc
+   (the plan refines a bounded task list whose tasks name states, Proofs/PlanProofs.v, Proofs/MachinePlan.v) satisfies
+   it. *)
 From Coq Require Import List Arith Bool NArith.
 From FFSM2 Require Import Model.TaskList Model.BitArray Model.BitStream Model.Plan Model.Ancestors Model.Machine
   Proofs.BitArrayProofs Proofs.MachineFrame Proofs.MachinePlan Proofs.MachineLife Proofs.GuardProofs Proofs.CycleProofs Proofs.PlanStep
-  Proofs.SerialProofs Proofs.LogProofs Proofs.MachineTop.
+  Proofs.SerialProofs Proofs.LogProofs Proofs.MachineTop Model.Multi Generated.InitFacts Proofs.ConstructProofs Proofs.LifeMonitor Proofs.ActivationRounds Proofs.IndexSafety Proofs.FeatureProofs.
 Import ListNotations.
 
 (* changeWith(d, p) from outside stores exactly (255, d, Some p); changeTo stores None *)
@@ -38,7 +43,8 @@ Theorem C07_destination_sees_the_survivor :
 Proof. exact (lifecycle_sees_current). Qed.
 Print Assumptions C07_destination_sees_the_survivor.
 
-(* previousTransition() afterwards is the survivor, payload included; every lifecycle view carries it (gview KPlan surv) *)
+(* previousTransition() afterwards is the survivor, payload included; every lifecycle view carries it (gview KPlan
+   surv) *)
 Theorem C07_whole_step :
   forall (P : Type) (cfg : config) (orc : oracle P),
          wf_cfg cfg ->
@@ -70,7 +76,8 @@ Theorem C07_whole_step :
 Proof. exact (process_request_top). Qed.
 Print Assumptions C07_whole_step.
 
-(* any predicate on payloads that holds of every payload the callbacks supply holds of every payload shown anywhere (request, pending, current, previous): no payload is invented or mixed up *)
+(* any predicate on payloads that holds of every payload the callbacks supply holds of every payload shown anywhere
+   (request, pending, current, previous): no payload is invented or mixed up *)
 Theorem C07_payload_predicate_preserved :
   forall (P : Type) (cfg : config) (orc : oracle P) (PI : plan_data P -> Prop),
          plan_inv_ok P cfg PI ->
